@@ -68,12 +68,10 @@ func (s *Scanner) readNextRune() {
 	if s.isDone() {
 		s.nextRune = -1
 		s.nextRuneSize = 0
-	} else if r, size := utf8.DecodeRune(s.src[s.offset:]); r == utf8.RuneError && size != 0 {
-		s.nextRune = r
-		s.nextRuneSize = 1
 	} else {
-		s.nextRune = r
-		s.nextRuneSize = size
+		// DecodeRune returns (RuneError, 1) for an invalid encoding, but (RuneError, 3) for a
+		// correctly encoded U+FFFD, which has to be consumed whole.
+		s.nextRune, s.nextRuneSize = utf8.DecodeRune(s.src[s.offset:])
 	}
 }
 
